@@ -18,7 +18,11 @@
 (*   ic     <last>(0) = 10.0                                                             *)
 (*   exo    0 none | 1:  + G  in equation 1, G a literal list of exactly MaxTime+1       *)
 (*                 | 2:  + G, G a list expression of MaxTime+3 values (gets chopped)     *)
-(*   cst    constant of equation 1:  0: 2.0 | 1: sqrt(4.0) | 2: c0 with the line c0 = 2.0 *)
+(*                 | 3:  + G, G a list expression that uses math names and builtins       *)
+(*   cst    constant of equation 1:  0: 2.0 | 1: a closed expression over math names /     *)
+(*          builtins chosen by fn (sqrt(4.0), tanh(0.5) + 1.5, e, max(2.0, 1.0), ...)     *)
+(*          | 2: c0 with the line c0 = 2.0                                               *)
+(*   tw     spelling of the time trend: 0.25*t or wrapped in max / hypot / abs / copysign *)
 (*   userT  "none": the parser injects t = k                                             *)
 (*          "endo": t = t_minus_1 + 1.0 and t_minus_1 = t(k-1)                           *)
 (*          "exo" : t = [0.0, 1.0, ...] in the exogenous section                         *)
@@ -44,7 +48,22 @@ NameSets == << << "x", "y", "z", "c0" >>,
                << "x", "NEW_x", "z", "c0" >> >>
 VarName(o, i) == NameSets[o.nm + 1][i]
 ParamName(o) == NameSets[o.nm + 1][4]
-MC_MathNames == {"sqrt", "exp", "log", "floor", "pi"}
+MC_MathNames == {"sqrt", "exp", "log", "floor", "pi", "tanh", "sinh", "cosh", "atan2", "log1p", "expm1", "log2", "hypot", "e", "tau", "erf", "copysign", "degrees", "gamma", "trunc", "fabs"}
+
+(* spellings of the constant of equation 1 (cst = 1), chosen by fn: closed expressions over names of the *)
+(* math module and the builtins the parser admits; the driver holds the texts (CONST_SPELLINGS) and      *)
+(* cross-checks the names.  The value of each is a float the driver computes, the block stays affine.    *)
+ConstSpellingReads ==
+    << << "sqrt" >>, << "tanh" >>, << "sinh" >>, << "cosh" >>, << "atan2" >>, << "log1p" >>, << "expm1" >>,
+       << "log2" >>, << "hypot" >>, << "e" >>, << "tau", "pi" >>, << "erf" >>, << "copysign" >>,
+       << "degrees", "pi" >>, << "gamma" >>, << "trunc" >>, << "max" >>, << "min" >>, << "abs" >>, << "pow" >>,
+       << "round" >>, << "float" >>, << "sum" >>, << "exp", "log" >>, << "floor" >>, << "fabs" >> >>
+NumSpellings == Len(ConstSpellingReads)
+(* spellings of the time trend (useT), chosen by tw: 0.25*t | 0.25*max(t, 0.0) | 0.25*hypot(t, 0.0) |   *)
+(* 0.25*abs(t) | 0.25*copysign(t, 1.0)  (t >= 0, so each equals 0.25*t exactly)                          *)
+TimeWrapReads == << << >>, << "max" >>, << "hypot" >>, << "abs" >>, << "copysign" >> >>
+(* exo = 3: G = [hypot(12.0, 16.0), ] * 2 + [max(25.0, e) + log1p(0.0), ] * (MaxTime+1)                  *)
+ExoExprReads == << "hypot", "max", "e", "log1p" >>
 
 Opt(c, s) == IF c THEN s ELSE << >>
 
@@ -66,9 +85,9 @@ EqReads(o, i) ==
     \o Opt(i = 1 /\ o.lag >= 3, << Lag2Name(o) >>)
     \o Opt(i = 1 /\ o.lag >= 4, << LagBName(o) >>)
     \o Opt(i = 1 /\ o.exo > 0, << "G" >>)
-    \o Opt(i = 1 /\ o.cst = 1, << "sqrt" >>)
+    \o (IF i = 1 /\ o.cst = 1 THEN ConstSpellingReads[o.fn] ELSE << >>)
     \o Opt(i = 1 /\ o.cst = 2, << ParamName(o) >>)
-    \o Opt(i = o.n /\ o.useT, << "t" >>)
+    \o Opt(i = o.n /\ o.useT, << "t" >> \o TimeWrapReads[o.tw + 1])
 
 MkBlock(o) ==
     o @@
@@ -85,8 +104,9 @@ MkBlock(o) ==
                        [] o.lag = 5 -> << l2, lb, l1 >>
                        [] o.lag = 6 -> << l2, l1, lb >>)
                  \o Opt(o.userT = "endo", << [name |-> "t_minus_1", of |-> "t"] >>),
-      exos   |-> Opt(o.exo > 0, << [name |-> "G", len |-> IF o.exo = 1 THEN o.maxTime + 1 ELSE o.maxTime + 3] >>)
-                 \o Opt(o.userT = "exo", << [name |-> "t", len |-> o.maxTime + 1] >>),
+      exos   |-> Opt(o.exo > 0, << [name |-> "G", len |-> IF o.exo = 1 THEN o.maxTime + 1 ELSE o.maxTime + 3,
+                                     reads |-> IF o.exo = 3 THEN ExoExprReads ELSE << >>] >>)
+                 \o Opt(o.userT = "exo", << [name |-> "t", len |-> o.maxTime + 1, reads |-> << >>] >>),
       ics    |-> Opt(o.ic, << Last(o) >>),
       foundT |-> o.userT # "none" ]
 
@@ -116,7 +136,7 @@ BaseMats == { << << 0, 1 >>, << 2, 0 >> >>,
 
 OptsOverN(M, MT, Tols, Lags, Nms) ==
     { [n |-> Len(A), A |-> A, lag |-> l, ic |-> c, exo |-> e, cst |-> s, userT |-> u, useT |-> w,
-       tol |-> tl, maxTime |-> mt, nm |-> nm] :
+       tol |-> tl, maxTime |-> mt, nm |-> nm, fn |-> IF s = 1 THEN 1 ELSE 0, tw |-> 0] :
       A \in M, l \in Lags, c \in BOOLEAN, e \in 0..2, s \in 0..2, u \in {"none", "endo", "exo"},
       w \in BOOLEAN, tl \in Tols, mt \in MT, nm \in Nms }
 OptsOver(M, MT, Tols) == OptsOverN(M, MT, Tols, 0..2, {0})
@@ -141,7 +161,16 @@ OwnNameProfiles ==
       [lag |-> 1, ic |-> TRUE,  exo |-> 1, cst |-> 2, userT |-> "none", useT |-> TRUE,  tol |-> 0, nm |-> 3],
       [lag |-> 0, ic |-> FALSE, exo |-> 0, cst |-> 0, userT |-> "endo", useT |-> FALSE, tol |-> 0, nm |-> 3] }
 ProfilesOf(P, M, MT) ==
-    { [n |-> Len(A), A |-> A, maxTime |-> mt] @@ pr : A \in M, pr \in P, mt \in MT }
+    { [n |-> Len(A), A |-> A, maxTime |-> mt] @@ pr @@ [fn |-> IF pr.cst = 1 THEN 1 ELSE 0, tw |-> 0] :
+      A \in M, pr \in P, mt \in MT }
+(* math functions and constants, builtins: every constant spelling with / without the exogenous list *)
+(* expression that uses math names, injected and user-defined time axis; every time-trend wrapper     *)
+MathProfiles ==
+    { [lag |-> 1, ic |-> TRUE, exo |-> x, cst |-> 1, userT |-> u, useT |-> TRUE, tol |-> 0, nm |-> 0,
+       fn |-> f, tw |-> 0] : f \in 1..NumSpellings, x \in {0, 3}, u \in {"none", "endo"} }
+    \cup
+    { [lag |-> 0, ic |-> FALSE, exo |-> 3, cst |-> c, userT |-> u, useT |-> TRUE, tol |-> 0, nm |-> 0,
+       fn |-> IF c = 1 THEN 10 ELSE 0, tw |-> w] : w \in 1..4, c \in {0, 1}, u \in {"none", "exo"} }
 ProfilesOver(M, MT) == ProfilesOf(Profiles, M, MT)
 Base2 == { << << 0, 1 >>, << 2, 0 >> >> }
 OwnNameMats == Mats1 \cup Base2 \cup { << << 0, 1, 1 >>, << 1, 0, 1 >>, << 1, 1, 0 >> >> }
@@ -162,6 +191,7 @@ BlocksQuick(mt) ==
     \cup { MkBlock(o) : o \in OptsOverN(Base2, {mt}, {0}, {5}, {0}) }
     \cup { MkBlock(o) : o \in ProfilesOver(Mats1 \cup Mats2 \cup Mats3Few, {mt}) }
     \cup { MkBlock(o) : o \in ProfilesOf(OwnNameProfiles, OwnNameMats, {mt}) }
+    \cup { MkBlock(o) : o \in ProfilesOf(MathProfiles, Mats1 \cup Base2, {mt}) }
 
 (* thorough: every option combination (lags 0-2) on every 1x1 / 2x2 / designed 3x3 matrix, and the  *)
 (* chained lag with the default tolerance; the colliding local names with every option on the 1x1   *)
@@ -175,11 +205,13 @@ BlocksThorough(mt) ==
     \cup { MkBlock(o) : o \in OptsOverN(BaseMats, {1, 6}, {0}, 0..3, {0}) }
     \cup { MkBlock(o) : o \in ProfilesOver(Mats3Mid, {4}) }
     \cup { MkBlock(o) : o \in ProfilesOf(OwnNameProfiles, OwnNameMats, {mt, 1}) }
+    \cup { MkBlock(o) : o \in ProfilesOf(MathProfiles, Mats1 \cup BaseMats, {mt, 6}) }
 
 (* a handful of blocks for the as-found counterexamples *)
 BlocksTiny(mt) ==
     { MkBlock(o) : o \in ProfilesOver(BaseMats, {mt}) }
     \cup { MkBlock(o) : o \in ProfilesOf(OwnNameProfiles, Base2, {mt}) }
+    \cup { MkBlock(o) : o \in ProfilesOf({ pr \in MathProfiles : pr.fn \in {0, 2, 10} }, Base2, {mt}) }
 
 MC_Blocks == CASE Tier = "quick"    -> BlocksQuick(3)
                [] Tier = "thorough" -> BlocksThorough(3)
